@@ -49,6 +49,8 @@ MsScanOpts ==
 MsScanOptsQuick ==
   {MsOpt(mm[1], mm[2], N, L, f, TRUE) :
      mm \in {<<1, 2>>, <<1, 3>>, <<2, 2>>, <<2, 3>>}, N \in {2, 3}, L \in {0, 5}, f \in {0, 2}}
+MsBreakOptsQuick ==
+  {MsOpt(2, 3, N, L, 0, TRUE) : N \in {2, 3}, L \in {0, 5}} \cup {MsOpt(1, 3, 2, 5, 0, TRUE)}
 MsStrandOptsQuick ==
   {MsOpt(1, M, 2, 0, f, re) : M \in {2, 3}, f \in {0, 1}, re \in {TRUE, FALSE}}
 MsScanOptsSmall ==
@@ -60,7 +62,7 @@ MsWideOpts ==
 
 MsQuickConfigs ==
   {[fam |-> "scan",   alpha |-> {"a", "c"},           lo |-> 0, n |-> 7,  opts |-> MsScanOptsQuick],
-   [fam |-> "break",  alpha |-> {"a", "c", "n"},      lo |-> 6, n |-> 6,  opts |-> MsScanOptsSmall],
+   [fam |-> "break",  alpha |-> {"a", "c", "n"},      lo |-> 6, n |-> 6,  opts |-> MsBreakOptsQuick],
    [fam |-> "strand", alpha |-> {"a", "c", "g", "t"}, lo |-> 0, n |-> 4,  opts |-> MsStrandOptsQuick],
    [fam |-> "wide",   alpha |-> {"a", "c"},           lo |-> 10, n |-> 10, opts |-> {MsOpt(2, 5, 2, 0, 0, TRUE)}]}
 MsThoroughConfigs ==
